@@ -3,4 +3,18 @@
 EXTENDS Naturals, Sequences
 Answerable(k) == k \in {"answer", "reject"}
 IsPrefix(a, b) == Len(a) <= Len(b) /\ \A i \in 1..Len(a) : a[i] = b[i]
+
+(* Reply size classes against a drain buffer of d units (server/tcp_stream.go *)
+(* stage, tcpDrainSize = 8 KiB):                                             *)
+(*   small  staged behind whatever is held (d of them fill the buffer)       *)
+(*   large  fits the buffer only when it is empty: staged after a flush      *)
+(*   huge   larger than the whole buffer: written on its own                 *)
+SizeClasses == {"small", "large", "huge"}
+Sz(z, d) == CASE z = "small" -> 1 [] z = "large" -> d [] z = "huge" -> d + 1
+RECURSIVE Held(_, _)
+Held(dr, d) == IF dr = <<>> THEN 0 ELSE Sz(Head(dr).sz, d) + Held(Tail(dr), d)
+
+(* What EDNS a query carried: no OPT, an OPT without a cookie, an OPT with a *)
+(* client cookie unique to the query.                                        *)
+OptKinds == {"none", "plain", "cookie"}
 =============================================================================
